@@ -545,6 +545,8 @@ def _param_uses(model: Model, fi: FuncInfo, pname: str, depth: int, seen) -> Lis
                     continue
         if isinstance(f, ast.Attribute) and fname in _READ_ONLY_METHODS:
             continue
+        if isinstance(f, ast.Attribute) and isinstance(f.value, ast.Name) and f.value.id in ("str", "int", "float", "bytes", "object", "repr") and fname in ("__repr__", "__str__", "__format__", "__len__", "__eq__", "__hash__"):
+            continue  # str.__repr__(x) and the like: the unbound form of a reading method
         got = _callee_of(par_call)
         if got is not None:
             callee, skip = got
